@@ -19,7 +19,11 @@ REQUIRED_THEOREMS = ["Clikit.Props.C02.parse_terminates", "Clikit.Props.C02.erro
                      "Clikit.Props.C02.d24_guard_needed", "Clikit.Props.C02.fault_unknown_long",
                      "Clikit.Props.C02.fault_unknown_short", "Clikit.Props.C02.fault_value_for_flag",
                      "Clikit.Props.C02.fault_required_value_missing", "Clikit.Props.C02.fault_missing_required",
-                     "Clikit.Props.C02.parse_of_loop_error", "Clikit.Props.C02.fault_surplus_positional"]
+                     "Clikit.Props.C02.parse_of_loop_error", "Clikit.Props.C02.fault_surplus_positional",
+                     "Clikit.Props.C02.wf_decides", "Clikit.Props.C02.wf_keys_nodup", "Clikit.Props.C02.wf_short_names",
+                     "Clikit.Props.C02.no_foreign_exception_decided", "Clikit.Props.C02.lenient_only_value_error_decided",
+                     "Clikit.Props.C02.fault_value_for_flag_decided", "Clikit.Props.C02.fault_required_value_missing_decided",
+                     "Clikit.Props.C02.fault_surplus_positional_decided"]
 TECHNIQUE = ("Lean 4 theorems on the parser model (no foreign exception, lenient never raises a parse error, "
              "strict-ok implies lenient-identical, termination of the token loop) + exhaustive/differential correspondence")
 LEVEL_TEXT = ("Proved in Lean for ALL formats, token lists and both modes, on a model of DefaultArgsParser.parse/Args that "
@@ -34,9 +38,15 @@ LEVEL_TEXT = ("Proved in Lean for ALL formats, token lists and both modes, on a 
               "with the required error class).")
 LEVEL_NOTE = ("Trusted: Lean kernel + standard axioms; the hand-written parser model (modelled, not verified; compared with "
               "the real parser on every generated case in strict and lenient mode); CPython int()/float() as conversion "
-              "tables. The surplus-positional fault class is checked by the oracle on generated mutants, not proved "
-              "(the other fault classes are theorems). no_foreign_exception assumes FmtWF (unique argument names, C07 option normal "
-              "form, defaults of optional-value options convertible inside the model).")
+              "tables. The hypotheses about the FORMAT - FmtWF for no_foreign_exception (unique argument names, C07 option "
+              "normal form, defaults of single-valued optional-value options convertible inside the model), LongOK for the "
+              "value-for-flag / missing-value faults (the option is found under its long name, which has no '='), multi-valued "
+              "argument last and distinct keys for the surplus-positional fault - are decided by the model on every format read "
+              "from the real builder (entry c02.wf, theorem wf_decides, compared with true on every case; the *_decided "
+              "corollaries take the decided form). The hypotheses about the LINE (a well-formed prefix before the fault, "
+              "SpellsPrefix) describe the case a fault theorem is about; the generated mutants exercise them through the oracle. "
+              "A default outside the model (e.g. a float default on an INTEGER optional-value option: int(2.5)) is rejected by the "
+              "check and is not generated.")
 RULE = ("(a) all token sequences up to length L (quick 2, thorough 3) over a 38-token adversarial alphabet x 7 catalogue "
         "formats; (b) random sequences of length 3-6; (c) single-fault mutants of well-formed C01 lines. Non-trivial = the "
         "sequence contains an option-like token or more positionals than the format takes; distinct = (format, tokens)")
@@ -47,7 +57,10 @@ TRUSTED_BASE = [
     "CPython int()/float(): parameters of the model, supplied as tables by the running interpreter",
 ]
 ASSUMPTIONS = [
-    "FmtWF for no_foreign_exception: unique argument names, accepts-value options are required/optional/multi (C07), optional-value defaults convert inside the model",
+    "FmtWF for no_foreign_exception: unique argument names, accepts-value options are required/optional/multi (C07), "
+    "optional-value defaults convert inside the model - no longer only assumed: decided by the model (fmtWFB) on every "
+    "generated real format and compared with true; what remains a restriction of the quantifier is the last clause "
+    "(defaults whose Python type the conversion model does not cover, e.g. a float default on an INTEGER option)",
     "fault-class -> error-class claims: theorems after any well-formed prefix (unknown long/short option, value for a flag, "
     "required value missing, surplus positional, required argument missing); the generated single-fault mutants "
     "exercise the same claims on the real parser through the oracle",
@@ -184,13 +197,28 @@ def run_impl(case):
 def model_requests(case):
     fmt = pc.build_format(case["spec"])
     flat = pc.flatten(fmt)
-    return [pc.model_request(flat, case["tokens"], False), pc.model_request(flat, case["tokens"], True)]
+    reqs = [pc.model_request(flat, case["tokens"], False), pc.model_request(flat, case["tokens"], True)]
+    # the hypotheses ABOUT THE FORMAT of the C02 theorems (FmtWF, LongOK of every option, MultiLast, distinct keys),
+    # decided by the model on the format the REAL builder produced (theorem wf_decides), with the same conversion tables
+    reqs.append({"m": "c02.wf", "fmt": flat, "ints": reqs[0]["ints"], "floats": reqs[0]["floats"]})
+    return reqs
 
 
 def model_obs(case, answers):
     # the model's parse is a function of the line: a reused parser object must answer the same
     return {"strict": pc.canon_model_answer(answers[0]), "lenient": pc.canon_model_answer(answers[1]),
-            "strict_reused": pc.canon_model_answer(answers[0]), "lenient_reused": pc.canon_model_answer(answers[1])}
+            "strict_reused": pc.canon_model_answer(answers[0]), "lenient_reused": pc.canon_model_answer(answers[1]),
+            "wf": answers[2]}
+
+
+WF_TRUE = {"fmt_wf": True, "long_ok": True, "short_ok": True, "multi_last": True, "nodup_keys": True}
+
+
+def impl_view(case, obs):
+    # every format the builder accepts has distinct argument names, its multi-valued argument last (C06), options in the
+    # C07 normal form with long names matching ^[a-zA-Z][a-zA-Z0-9-]+$ and unique; the generated optional-value defaults
+    # are of the declared type or texts: the model must answer true to every check
+    return dict(obs, wf=WF_TRUE)
 
 
 DOCUMENTED = ("CannotParseArgsException", "NoSuchOptionException", "ValueError")
